@@ -127,7 +127,9 @@ def case_nidq(ctx, mn, ma, xa, dw, acq=None):
 
 TRICKY = {"fileName": "D:/a=b/c d.bin", "userNotes": "", "imRoFile": "x=y=z", "gateMode": "Immediate", "snsSaveChanSubset": "0:383,768",
           "imroTbl": "(0,384)(0 0 0 500 250 1)", "fileSHA1": "D4CE63AFA12937A1904D344B93C90B64573782D3", "appVersion": 20180829.0,
-          "imAiRangeMax": 0.6, "imSampRate": 30000.390639481}
+          "imAiRangeMax": 0.6, "imSampRate": 30000.390639481,
+          # strings made of digits and punctuation only: dates, ranges, placeholders (round 6)
+          "userDate": "2019-06-04", "userRange": "0-383", "userPlaceholder": "-", "userSerial": "555-0100"}
 
 
 def case_write_read(ctx, nlist):
@@ -278,7 +280,10 @@ d['nSavedChans'] = float({m['scalar_int']}); d['fileTimeSecs'] = float(Fraction(
 d['snsApLfSy'] = [float(x) for x in {lst}]; d['typeThis'] = 'imec'; d['imDatPrb_type'] = 0.0
 p = pathlib.Path(tempfile.mkdtemp()) / 'out.meta'
 spikeglx.write_meta_data(d, p)
-back = spikeglx.read_meta_data(p)
+try:
+    back = spikeglx.read_meta_data(p)
+except Exception as e:
+    reproduced('a file written by write_meta_data cannot be parsed again: ' + repr(e))
 print(p.read_text()); print(dict(back))
 bad = [k for k, v in d.items() if k not in back or (back[k] != v and not (isinstance(v, float) and abs(back[k] - v) <= 1e-12 * abs(v)))]
 if set(back) - set(d) - {{'neuropixelVersion', 'serial'}}: bad.append('extra keys')
